@@ -35,12 +35,17 @@ pub fn gen_case(run_seed: u64, tier: Tier) -> ThrCase {
     let mut rng = stream(run_seed, "workload");
     let mut srng = stream(run_seed, "schedule");
     // keep structures small: the subject is interleaving, not size
-    let mut spec = gen_spec(&mut rng, Tier::Quick);
+    let mut spec = gen_spec(&mut rng, Tier::Thorough);
+    // (bit and quad structures may be long: their sampled search paths only exist beyond a few superblocks)
     for _ in 0..8 {
-        if spec.n() <= 3000 {
+        let small_enough = match &spec {
+            Spec::Tree { .. } => spec.n() <= 3000,
+            _ => spec.n() <= 40000,
+        };
+        if small_enough {
             break;
         }
-        spec = gen_spec(&mut rng, Tier::Quick);
+        spec = gen_spec(&mut rng, Tier::Thorough);
     }
     ThrCase {
         spec,
